@@ -276,3 +276,107 @@ def check_roots(ctx, label, enc, dec, rule_enc='encoder-fills-every-field', rule
     if n < min_messages:
         ctx.fail(rule_enc, label, enc, 'only %d generated messages are built by the encoder (floor %d): rule went blind' % (n, min_messages), key='%s|floor|%s' % (rule_enc, label))
     return n
+
+
+UNWRAPS = ('core::option::Option::<T>::unwrap_or_default', 'core::option::Option::<T>::unwrap_or', 'core::option::Option::<T>::unwrap_or_else')
+
+
+def _field_of_operand(rec, op, genp, depth=0):
+    if not (isinstance(op, list) and op and op[0] in ('c', 'm')):
+        return None
+    loc, projs = op[1]
+    for p in projs:
+        if isinstance(p, list) and p[0] == 'f' and len(p) > 3 and p[3].startswith(genp):
+            return (p[3], p[2], p[1])
+    if projs or depth > 4:
+        return None
+    ds = [st[2] for b in rec['bb'] for st in b['s'] if st[0] == '=' and st[1][0] == loc and not st[1][1]]
+    if len(ds) != 1:
+        return None
+    rv = ds[0]
+    if rv[0] == 'use':
+        return _field_of_operand(rec, rv[1], genp, depth + 1)
+    if rv[0] == 'ref':
+        for p in rv[1][1]:
+            if isinstance(p, list) and p[0] == 'f' and len(p) > 3 and p[3].startswith(genp):
+                return (p[3], p[2], p[1])
+        return _field_of_operand(rec, ['c', [rv[1][0], []]], genp, depth + 1) if not rv[1][1] else None
+    if rv[0] == 'cast':
+        return _field_of_operand(rec, rv[2], genp, depth + 1)
+    return None
+
+
+def _operand_is_some(rec, op, depth=0):
+    """is the operand always a freshly built Option::Some(..)?"""
+    if not (isinstance(op, list) and op and op[0] in ('c', 'm')):
+        return False
+    loc, projs = op[1]
+    if projs:
+        return False
+    ds = [('rv', st[2]) for b in rec['bb'] for st in b['s'] if st[0] == '=' and st[1][0] == loc and not st[1][1]]
+    ds += [('call', b['t']) for b in rec['bb'] if b['t'][0] == 'call' and not b['t'][3][1] and b['t'][3][0] == loc]
+    if not ds:
+        return False
+    for kind, d in ds:
+        if kind == 'call':
+            return False
+        if d[0] == 'agg' and d[1][0] == 'adt' and d[1][1] == 'core::option::Option' and d[1][3] == 'Some':
+            continue
+        if d[0] == 'use' and depth < 4 and _operand_is_some(rec, d[1], depth + 1):
+            continue
+        return False
+    return True
+
+
+def check_default_collapse(ctx, rule='optional-field-not-collapsed', genp=GENP, in_scope=None, floor=None):
+    """A decoder that reads an optional wire field with unwrap_or*/unwrap_or_default maps `absent` and `present with the default`
+    to the same value.  That is sound only if every encoder always writes Some(..) there (absence then only comes from older
+    writers); if an encoder passes a domain Option through, two different operators become indistinguishable after decoding."""
+    f = ctx.facts
+    hits = {}
+    for dname, ents in f.fn_index.items():
+        if in_scope is not None and not in_scope(dname):
+            continue
+        if not any(c in UNWRAPS for c in f.callees.get(dname, [])):
+            continue
+        for i in range(len(ents)):
+            rec = f.fn(dname, i)
+            if 'bb' not in rec:
+                continue
+            for b in rec['bb']:
+                t = b['t']
+                if t[0] == 'call' and not b.get('cu') and (t[1].get('res') or t[1].get('def')) in UNWRAPS:
+                    fo = _field_of_operand(rec, t[2][0], genp)
+                    if fo:
+                        hits.setdefault((fo[0], fo[1], fo[2]), []).append((dname, rec))
+    n = 0
+    for (msg, fld, fidx), where in sorted(hits.items()):
+        n += 1
+        sm = msg.rsplit('::', 1)[-1]
+        passthrough = []
+        builders = 0
+        for d in f.constructors.get(msg, []):
+            if ' as core::clone::Clone>' in d or ' as core::default::Default>' in d or d.startswith(('<' + genp, genp)) or ' as prost::' in d:
+                continue      # derived / generated impls of the message type itself are not encoders
+            for i in range(len(f.fn_index.get(d, []))):
+                rec = f.fn(d, i)
+                if 'bb' not in rec:
+                    continue
+                for b in rec['bb']:
+                    for st in b['s']:
+                        if st[0] == '=' and st[2][0] == 'agg' and st[2][1][0] == 'adt' and st[2][1][1] == msg and fidx < len(st[2][2]):
+                            builders += 1
+                            if not _operand_is_some(rec, st[2][2][fidx]):
+                                passthrough.append(d)
+        inst = '%s.%s' % (sm, fld)
+        dec = where[0][0]
+        if passthrough:
+            ctx.fail(rule, inst, ctx.loc(where[0][1]), '%s reads the optional field %s with unwrap_or*, so `absent` and `present with the default value` decode to the '
+                     'same thing, but %s writes a domain Option through unchanged: an operator with None and one with Some(default) become '
+                     'indistinguishable after a round trip' % (dec.rsplit('::', 2)[-2] + '::' + dec.rsplit('::', 1)[-1], inst, passthrough[0].rsplit('::', 2)[-2]),
+                     key='%s|%s' % (rule, inst))
+        else:
+            ctx.ok(rule, inst, sample={'field': inst, 'decoder': dec, 'encoders_always_write_some': builders})
+    if floor is not None:
+        ctx.floor(rule, 'optional wire fields read with a default', n, floor)
+    return n
